@@ -44,6 +44,7 @@ type kase struct {
 	Full    bool   `json:"full"`
 	Archive int    `json:"archive"`
 	Via     string `json:"via"` // sql | api
+	Two     bool   `json:"two"` // a default collection and more history first, then the collection under test
 }
 
 type env struct {
@@ -185,6 +186,28 @@ func (v *env) one(k kase) {
 			return
 		}
 	}
+	if k.Two {
+		// first collection (default mode) moves the history so far into the old generation; then
+		// more history whose new-gen roots (tag, working sets) reference old-gen chunks
+		k1 := k
+		k1.Full, k1.Archive = false, 0
+		if gerr := v.gc(r, k1); gerr != nil {
+			e.Rep.Violate("gc-error", "first garbage collection failed: "+gerr.Error(), k)
+			return
+		}
+		for _, q := range []string{
+			"UPDATE t1 SET v = 'round2' WHERE id % 5 = 1",
+			"CALL dolt_commit('-am', 'round 2')",
+			"CALL dolt_tag('r2tag', 'HEAD~1')",
+			"CALL dolt_branch('r2branch', 'v1')",
+			"INSERT INTO kl VALUES (77, 'uncommitted after first gc')",
+		} {
+			if err := r.Exec(q); err != nil {
+				e.Rep.Note(fmt.Sprintf("seed %d: round-2 statement %q refused: %.150s", k.Seed, q, err))
+			}
+		}
+		e.Rep.Hit("two-collections")
+	}
 	cs := wg.ChunkStoreOf(r.DDB)
 	before, err := wg.Fingerprint(ctx, r.DDB)
 	if err != nil {
@@ -227,7 +250,7 @@ func (v *env) one(k kase) {
 	}
 	cs = wg.ChunkStoreOf(ddb2)
 	after, ferr := wg.Fingerprint(ctx, ddb2)
-	canon := fmt.Sprintf("%s|%v|%d|%s|%d", k.Kind, k.Full, k.Archive, k.Via, k.Seed)
+	canon := fmt.Sprintf("%s|%v|%d|%s|%v|%d", k.Kind, k.Full, k.Archive, k.Via, k.Two, k.Seed)
 	e.Rep.Count(canon, true)
 	if k.Kind == "crafted" {
 		// consequence of C09's walk-missing:* — the collector drops what only the omitted fields reference
@@ -330,7 +353,7 @@ func main() {
 	rng := e.Rng
 	n := e.N(4, 20)
 	for i := 0; i < n; i++ {
-		k := kase{Kind: "history", Seed: e.Seed*1000 + uint64(i), Rows: e.N(150, 1200), Full: i%2 == 1, Archive: (i / 2) % 2, Via: "sql"}
+		k := kase{Kind: "history", Seed: e.Seed*1000 + uint64(i), Rows: e.N(150, 1200), Full: i%2 == 1, Archive: (i / 2) % 2, Via: "sql", Two: i%4 == 1 || i%4 == 2}
 		if rng.Chance(1, 3) {
 			k.Via = "api"
 		}
